@@ -39,6 +39,8 @@ def main():
     n = os.path.basename(src.rstrip("/")).replace("change", "")
     if "/seed2/" in src:
         n = str(int(n) + 3)
+    if "/seed3/" in src:
+        n = str(int(n) + 6)
     sid = "%s-%s" % (prop, n)
     wt = "/tmp/st-%s" % sid
     sh("git -C /repo worktree remove --force %s" % wt)
